@@ -46,8 +46,6 @@ import (
 	"io"
 	"net/http"
 	"net/http/httptest"
-	"os"
-	"runtime/pprof"
 	"runtime"
 	"sort"
 	"strconv"
@@ -801,9 +799,9 @@ func (r *runner) Do(op []string) (string, bool) {
 		}
 		return fmt.Sprintf("left=%s q=%d early=%d", list(ls), q, early) + r.tail(), true
 	case "txstop":
-		r.stopTx()
+		fl := r.stopTx()
 		pend := transmit.VerifShutdownPending(r.dt)
-		return fmt.Sprintf("pend=%d", pend) + r.tail(), true
+		return fmt.Sprintf("pend=%d fl=%d", pend, fl) + r.tail(), true
 	case "gor":
 		r.stopAux()
 		return "left=" + r.leftover(), true
@@ -899,11 +897,17 @@ func (r *runner) stopCollector() int {
 	return early
 }
 
-func (r *runner) stopTx() {
+// stopTx runs the exported DirectTransmission.Stop and returns how many accepted events had not
+// reached the fake Honeycomb at the moment Stop returned (Stop waits for its dispatch pool: 0).
+func (r *runner) stopTx() int {
 	r.tx.call.Lock()
 	defer r.tx.call.Unlock()
 	r.dt.Stop()
 	r.tx.stopped = true
+	r.tx.mu.Lock()
+	ok := r.tx.ok
+	r.tx.mu.Unlock()
+	return ok - r.up.received()
 }
 
 // leftover lists the creators of goroutines that exist now, did not exist before the case started
@@ -1035,11 +1039,4 @@ func (r *runner) Close() {
 	r.srv.Close()
 }
 
-func main() {
-	if os.Getenv("VERIF_PROF") != "" {
-		f, _ := os.Create(os.Getenv("VERIF_PROF"))
-		pprof.StartCPUProfile(f)
-		defer pprof.StopCPUProfile()
-	}
-	kit.Main(&comp{}, nil)
-}
+func main() { kit.Main(&comp{}, nil) }
